@@ -641,10 +641,11 @@ def run(tier: str) -> int:
         # (c) with a parse_attrs that takes the delimiters off a quoted value in a way that is right for every value
         # made of letters only (what-if switches; shows that the universe ATTR is not vacuous).
         # (d) with a parse_attrs whose NAME class is the positive class of start tags (family NAME is not vacuous)
+        # (e) with the table_hdr_cell_fn as found (deviations HdrSepEndsCall / HdrSepEndsFormat; universe SEP is not vacuous)
         demos = ["Demo_ParserStruct_asis", "Demo_ParserStruct_key_linebreaks", "Demo_ParserStruct_attr_greedy",
-                 "Demo_ParserStruct_attr_namechars"]
+                 "Demo_ParserStruct_attr_namechars", "Demo_ParserStruct_hdr_sep_call"]
         if thorough:
-            demos += ["Demo_ParserStruct_key_trims", "Demo_ParserStruct_key_kind",
+            demos += ["Demo_ParserStruct_key_trims", "Demo_ParserStruct_key_kind", "Demo_ParserStruct_hdr_sep_format",
                       "Demo_ParserStruct_attr_everywhere", "Demo_ParserStruct_attr_anyquote"]
         with ThreadPoolExecutor(len(demos)) as ex:
             rs = list(ex.map(lambda n: tlc("Gen_ParserStruct", n + ".cfg", workers=1, check=False, env={"TAGS_FILE": tags_file}), demos))
